@@ -1,6 +1,7 @@
 import CCT.Props.C13
 import CCT.Props.C09
 import CCT.Lemmas.HeapLemmas
+import CCT.Model.Threads
 /-!
 # C12 — verification is pure  (partial: thread switches inside CPython, import order and stdout are run, not modelled)
 
@@ -120,6 +121,123 @@ def apiCall (C : CryptoFns) (h : Heap) (depth : Nat) (env keys thr : Nat) (gpg :
       | _, _, _ => none)
 
 theorem verifiers_frame (C : CryptoFns) (h : Heap) (depth env keys thr : Nat) (gpg : Bool) : (apiCall C h depth env keys thr gpg).1 = h := rfl
+
+
+-- threads (Model/Threads.lean) ---------------------------------------------------------------------------------------
+
+def ReadOnlyStep {σ : Type} (f : Heap → σ → Heap × σ) : Prop := ∀ h s, (f h s).1 = h
+def ReadOnlyThreads {σ : Type} (ts : Nat → Thread σ) : Prop := ∀ i, ∀ f ∈ (ts i).steps, ReadOnlyStep f
+
+theorem runAlone_readonly {σ : Type} (h : Heap) : ∀ (fs : List (Heap → σ → Heap × σ)) (s : σ), (∀ f ∈ fs, ReadOnlyStep f) →
+    (runAlone h fs s).1 = h
+  | [], s, _ => rfl
+  | f :: r, s, hro => by
+    have h1 : (f h s).1 = h := hro f (List.mem_cons_self ..) h s
+    simp only [runAlone]
+    generalize hx : f h s = x at h1
+    obtain ⟨h', s'⟩ := x
+    simp only at h1 ⊢; subst h1
+    exact runAlone_readonly _ r s' (fun g hg => hro g (List.mem_cons_of_mem _ hg))
+
+/-- **every interleaving**: under any schedule, threads that never write the heap leave it unchanged, and each thread is exactly where
+it would be after taking the same number of steps alone on the initial heap -/
+theorem sched_readonly {σ : Type} (h : Heap) : ∀ (sched : List Nat) (ts : Nat → Thread σ), ReadOnlyThreads ts →
+    (runSched h ts sched).1 = h ∧
+    ∀ i, ((runSched h ts sched).2 i).steps = (ts i).steps.drop (sched.count i) ∧
+         ((runSched h ts sched).2 i).loc = (runAlone h ((ts i).steps.take (sched.count i)) (ts i).loc).2
+  | [], ts, _ => by simp [runSched, runAlone]
+  | a :: r, ts, hro => by
+    simp only [runSched]
+    cases hs : (ts a).steps with
+    | nil =>
+      have e : stepThread h ts a = (h, ts) := by simp [stepThread, hs]
+      rw [e]
+      obtain ⟨ih1, ih2⟩ := sched_readonly h r ts hro
+      refine ⟨ih1, fun i => ?_⟩
+      obtain ⟨i1, i2⟩ := ih2 i
+      by_cases hia : a = i
+      · subst hia; simp [i1, i2, hs, runAlone]
+      · simp [hia, i1, i2]
+    | cons f rest =>
+      have hf : (f h (ts a).loc).1 = h := hro a f (by rw [hs]; exact List.mem_cons_self ..) h _
+      generalize hx : f h (ts a).loc = x at hf
+      obtain ⟨h', s'⟩ := x
+      simp only at hf; subst hf
+      have e : stepThread h' ts a = (h', fun j => if j = a then { steps := rest, loc := s' } else ts j) := by
+        simp [stepThread, hs, hx]
+      rw [e]
+      have hro' : ReadOnlyThreads (fun j => if j = a then ({ steps := rest, loc := s' } : Thread σ) else ts j) := by
+        intro i g hg
+        by_cases hia : i = a
+        · simp only [hia, if_true] at hg
+          exact hro a g (by rw [hs]; exact List.mem_cons_of_mem _ hg)
+        · simp only [hia, if_false] at hg; exact hro i g hg
+      obtain ⟨ih1, ih2⟩ := sched_readonly h' r _ hro'
+      refine ⟨ih1, fun i => ?_⟩
+      obtain ⟨i1, i2⟩ := ih2 i
+      by_cases hia : a = i
+      · subst hia
+        simp only [if_true] at i1 i2
+        simp [i1, i2, hs, runAlone, hx]
+      · have hia' : ¬ i = a := fun x => hia x.symm
+        simp only [hia', if_false] at i1 i2
+        simp [hia, i1, i2]
+
+/-- a thread that was given at least as many turns as it has steps has finished with the result of running alone -/
+theorem finished_thread_result {σ : Type} (h : Heap) (sched : List Nat) (ts : Nat → Thread σ) (hro : ReadOnlyThreads ts) (i : Nat)
+    (hfin : (ts i).steps.length ≤ sched.count i) :
+    ((runSched h ts sched).2 i).steps = [] ∧ ((runSched h ts sched).2 i).loc = (runAlone h (ts i).steps (ts i).loc).2 := by
+  obtain ⟨_, h2⟩ := sched_readonly h sched ts hro
+  obtain ⟨a, b⟩ := h2 i
+  refine ⟨by rw [a]; exact List.drop_eq_nil_of_le hfin, ?_⟩
+  rw [b, List.take_of_length_le hfin]
+
+theorem verifierSteps_readonly (C : CryptoFns) (depth env keys thr : Nat) (gpg : Bool) :
+    ∀ f ∈ verifierSteps C depth env keys thr gpg, ReadOnlyStep f := by
+  intro f hf
+  simp only [verifierSteps, List.mem_cons, List.mem_nil_iff, or_false] at hf
+  rcases hf with rfl | rfl | rfl | rfl <;> intro h s <;> rfl
+
+theorem verifier_alone (C : CryptoFns) (h : Heap) (depth env keys thr : Nat) (gpg : Bool) :
+    (runAlone h (verifierSteps C depth env keys thr gpg) {}).2.verdict =
+      verdictOf C gpg (deref h depth env) (deref h depth keys) (deref h depth thr) := by
+  simp [runAlone, verifierSteps]
+
+/-- **concurrent verification over shared metadata**: any number of verifier threads (thread `i` checks the heap objects `args i`), under
+*every* schedule — every interleaving of their reads — leave the shared heap untouched, and every thread that has been given its four
+turns holds exactly the verdict the same call returns when run alone (`apiCall`) -/
+theorem concurrent_verdicts (C : CryptoFns) (h : Heap) (depth : Nat) (args : Nat → Nat × Nat × Nat × Bool) (sched : List Nat) :
+    let ts : Nat → Thread VLocal := fun i => verifierThread C depth (args i).1 (args i).2.1 (args i).2.2.1 (args i).2.2.2
+    (runSched h ts sched).1 = h ∧
+    ∀ i, 4 ≤ sched.count i →
+      ((runSched h ts sched).2 i).loc.verdict = (apiCall C h depth (args i).1 (args i).2.1 (args i).2.2.1 (args i).2.2.2).2 := by
+  intro ts
+  have hro : ReadOnlyThreads ts := fun i => verifierSteps_readonly C depth _ _ _ _
+  refine ⟨(sched_readonly h sched ts hro).1, fun i hi => ?_⟩
+  have hf := (finished_thread_result h sched ts hro i (by simpa [ts, verifierThread, verifierSteps] using hi)).2
+  rw [hf]
+  simp only [ts, verifierThread]
+  rw [verifier_alone]
+  simp only [apiCall, verdictOf]
+  cases deref h depth (args i).1 <;> cases deref h depth (args i).2.1 <;> cases deref h depth (args i).2.2.1 <;> rfl
+
+/-- why the hypothesis matters: one thread with a *writing* step (an in-place `sort()` / normalisation of a shared argument, a module-level
+tally) and the verdict of a concurrent verifier depends on the schedule -/
+def writerThread (i : Nat) (o : Obj) : Thread VLocal := { steps := [fun h s => (h.write i o, s)], loc := {} }
+
+def demoH : Heap :=
+  { get := fun i => if i = 0 then some (.atom .null) else if i = 1 then some (.dict []) else
+                    if i = 2 then some (.dict [(ps! "signatures", 1), (ps! "signed", 0)]) else
+                    if i = 3 then some (.list []) else if i = 4 then some (.atom (.int 1)) else none, next := 5 }
+
+def demoTs : Nat → Thread VLocal := fun i => if i = 0 then verifierThread C09.toyCrypto.toCryptoFns 3 2 3 4 false else writerThread 4 (.atom (.int 0))
+
+example : ((runSched demoH demoTs [0,0,0,0,1]).2 0).loc.verdict = some (.error .signature) := by
+  simp [runSched, stepThread, demoTs, verifierThread, verifierSteps, writerThread, demoH, deref, derefList, derefMembers, Heap.write, Heap.set, verdictOf]
+  decide +kernel
+example : ((runSched demoH demoTs [0,0,1,0,0]).2 0).loc.verdict = some (.error .arg) := by
+  simp [runSched, stepThread, demoTs, verifierThread, verifierSteps, writerThread, demoH, deref, derefList, derefMembers, Heap.write, Heap.set, verdictOf]
+  decide +kernel
 
 
 end CCT.C12
